@@ -17,5 +17,25 @@ if grep -q '^const resumableReaderBackoff = 250 \* time.Millisecond$' "$src"; th
 else
   echo "build.sh: back-off constant not found in $src; building without overlay (read-fault enumeration will be slow)" >&2
 fi
+# Clock seam for the lease code (C20): leaser.go and s3/leaser.go are compiled from copies whose readings of the
+# clock go through lsverif/vclock (identical to the time package unless the check freezes it). Nothing else changes.
+entries=()
+[ -f "$ov/resumable_reader.go" ] && entries+=("\"$src\":\"$ov/resumable_reader.go\"")
+n=0
+for f in "$repo/leaser.go" "$repo/s3/leaser.go"; do
+  [ -f "$f" ] || continue
+  n=$((n+1)); o="$ov/leaser$n.go"
+  sed -E 's/\btime\.Now\(\)/vclock.Now()/g; s/\btime\.Until\(/vclock.Until(/g; s/\btime\.Since\(/vclock.Since(/g' "$f" \
+    | awk 'BEGIN{d=0} { print } /^import \($/ && !d { print "\t\"lsverif/vclock\""; d=1 }' > "$o"
+  if grep -q 'vclock\.' "$o" && grep -q '"lsverif/vclock"' "$o"; then
+    printf '\nvar _ = time.Now // keeps the time import used\n' >> "$o"
+    grep -q '^	"time"$' "$o" || sed -i 's|^\t"lsverif/vclock"$|\t"lsverif/vclock"\n\t"time"|' "$o"
+    entries+=("\"$f\":\"$o\"")
+  fi
+done
+if [ ${#entries[@]} -gt 0 ]; then
+  ( IFS=,; printf '{"Replace":{%s}}\n' "${entries[*]}" ) > "$ov/overlay.json"
+  overlay_arg=(-overlay "$ov/overlay.json")
+fi
 # LSMC_TAGS: extra build tags (e.g. "vfs" for the C18 binary)
 ( cd "$harness" && go build -tags "verif ${LSMC_TAGS:-}" "${overlay_arg[@]}" -o "$out" ./cmd/lsmc )
